@@ -64,7 +64,7 @@ CUSTOM_STYLES = {
     "custom6var": ("0:", "1::", "<2>", "<3>>", "<4+>", "<5++>"),  # prefix-free, different widths
 }
 TITLES = (None, False, "My Title", True)
-REPRS = ("default", "template", "callable", "empty")  # "empty": the valid format string "" (every rendering is "", lines are the bare prefixes)
+REPRS = ("default", "template", "callable", "empty", "multiline")  # "empty": the valid format string "" (every rendering is "", lines are the bare prefixes)
 JOINS = ("\n", ", ", "")
 BAD_TUPLES = ((), ("a", "b", "c"), ("a", "b", "c", "d", "e"), ("a", "b", "c", "d", "e", "f", "g"))
 CALL_TIMEOUT = 10.0
@@ -90,6 +90,11 @@ def _guarded(fn, *a, **kw):
     finally:
         signal.setitimer(signal.ITIMER_REAL, 0)
         signal.signal(signal.SIGALRM, old)
+
+
+def _multiline_repr(node):
+    """a rendering that itself contains a line feed (and a tab): still *one* entry of format_iter() per node"""
+    return f"{node._data}\n\t+{node._data}"
 
 
 def _callable_repr(node):
@@ -161,11 +166,13 @@ def rendering(node, repr_kind: str, typed: bool) -> str:
         return f"{node._data}"
     if repr_kind == "empty":
         return ""
+    if repr_kind == "multiline":
+        return _multiline_repr(node)
     return f"<{node._data}>"
 
 
 def repr_arg(repr_kind: str):
-    return {"default": None, "template": "{node.data}", "callable": _callable_repr, "empty": ""}[repr_kind]
+    return {"default": None, "template": "{node.data}", "callable": _callable_repr, "empty": "", "multiline": _multiline_repr}[repr_kind]
 
 
 def expected_prefix(info: Info, i: int, level: int, seg) -> str:
